@@ -124,3 +124,47 @@ func TestC01_Reference(t *testing.T) {
 		r.Case(text+"\x00"+c.Datum.String()+"\x00"+o.String(), nt, sampleOf(text, c.Datum, got.String()+" ref="+want.String()), classes...)
 	})
 }
+
+// TestC01_Representations realises ONE logical document under several Go
+// representations (as generated; every typed container turned into
+// []interface{} / map[string]interface{}; values and root behind pointers;
+// JSON-encoded and decoded again where the document is JSON-shaped) and
+// evaluates the same expression on each: every realisation must agree with the
+// reference interpreter run on that realisation, and realisations for which the
+// reference predicts the same decisive outcome must agree with each other.
+func TestC01_Representations(t *testing.T) {
+	r := rec(t, "C01", c01Rule)
+	rapid.Check(t, func(t *rapid.T) {
+		p := uni.Profile{Depth: 3, Structs: true, NilLeaves: true}
+		if rapid.Bool().Draw(t, "odd") {
+			p.OddKeys, p.MultiPtr = true, true
+		}
+		root := uni.GenDatum(t, p)
+		g := gen.NewExprGen(t, root, "")
+		e := g.Expr(rapid.IntRange(1, 3).Draw(t, "depth"))
+		rend := bx.NewRenderer(chooser(t))
+		rend.MaxParen = 1
+		text, _ := rend.Render(e)
+		variants := map[string]*uni.Node{"as-generated": root, "dynamic": uni.Dynamic(root), "pointered": uni.Pointered(root), "dynamic+pointered": uni.Pointered(uni.Dynamic(root))}
+		outs := map[string]ref.Set{}
+		wants := map[string]ref.Set{}
+		for _, name := range []string{"as-generated", "dynamic", "pointered", "dynamic+pointered"} {
+			c := newEvalCase(text, e, variants[name], Opts{})
+			want, got, _ := c01Check(t, "C01", "TestC01_Reference", c)
+			outs[name], wants[name] = got.Outcome(), want
+		}
+		decisive := 0
+		for a, wa := range wants {
+			if wa == ref.T || wa == ref.F {
+				decisive++
+			}
+			for b, wb := range wants {
+				if wa == wb && wa.Singleton() && outs[a] != outs[b] {
+					c := newEvalCase(text, e, variants[a], Opts{})
+					violation(t, "C01", "TestC01_Reference", c, "representations %s and %s of one document give %s and %s for %s", a, b, outs[a], outs[b], c.TextQ)
+				}
+			}
+		}
+		r.Case(text+"\x00"+root.String(), decisive >= 2, sampleOf(text, root, fmt.Sprint(outs)), fmt.Sprintf("decisive-representations:%d", decisive))
+	})
+}
